@@ -1,7 +1,7 @@
 #!/bin/bash
 # tools/try_mutant.sh <patch.diff> <Cxx> [tier]   - run a check against a scratch worktree of /repo with the patch applied
 set -u
-diff="$1"; id="$2"; tier="${3:-quick}"
+diff=$(readlink -f "$1"); id="$2"; tier="${3:-quick}"
 wt=$(mktemp -d /tmp/mrepo_XXXX)
 git -C /repo worktree add -q --detach "$wt" HEAD || exit 2
 if ! git -C "$wt" apply "$diff"; then echo "PATCH DOES NOT APPLY"; git -C /repo worktree remove --force "$wt"; exit 2; fi
